@@ -22,30 +22,88 @@ def self_attr(e, name=None):
     return isinstance(e, ast.Attribute) and isinstance(e.value, ast.Name) and e.value.id == "self" and (name is None or e.attr == name)
 
 
-def mutations(body, lists):
-    """{list name: [(kind, detail, node)]} for the statements DIRECTLY in this block (calls to own methods are not followed)"""
+def _target_list(e, lists, alias):
+    """name of the tracked list that expression e denotes: self.<list>, or a parameter known to alias one"""
+    if self_attr(e) and e.attr in lists:
+        return e.attr
+    if isinstance(e, ast.Name) and e.id in alias:
+        return alias[e.id]
+    return None
+
+
+def _perm_names(fi, stmt, value):
+    """names used in `value` that hold an arg-sort permutation (decided on their flow-sensitive expansion)"""
+    out = []
+    for x in ast.walk(value):
+        if isinstance(x, ast.Name) and x.id not in ("self", "np", "list"):
+            try:
+                ex = astq.expr_at(fi, stmt, x)
+            except Exception:
+                continue
+            if any(isinstance(c, ast.Call) and isinstance(c.func, ast.Attribute) and c.func.attr == "argsort" for c in ast.walk(ex)):
+                out.append(astq.dump(ex))
+    return sorted(set(out))
+
+
+def mutations(body, lists, fi=None, alias=None, ci=None, depth=1):
+    """{list name: [(kind, detail, node)]} for the statements DIRECTLY in this block; calls of own private helpers that receive a
+    tracked list as argument are followed once (the helper's mutations are attributed to the lists it was given)"""
+    alias = alias or {}
     out = {l: [] for l in lists}
     for s in body:
         if isinstance(s, (ast.If, ast.For, ast.While, ast.Try, ast.With)):
             continue
         for n in ast.walk(s):
-            if isinstance(n, ast.Call) and isinstance(n.func, ast.Attribute) and self_attr(n.func.value) and n.func.value.attr in lists:
-                if n.func.attr in ("append", "pop", "remove", "insert", "clear", "extend", "sort", "reverse"):
+            if isinstance(n, ast.Call) and isinstance(n.func, ast.Attribute):
+                tl = _target_list(n.func.value, lists, alias)
+                if tl is not None and n.func.attr in ("append", "pop", "remove", "insert", "clear", "extend", "sort", "reverse"):
                     det = n.func.attr + "(" + (",".join(astq.src(a) for a in n.args) if n.func.attr != "append" else "") + ")"
-                    out[n.func.value.attr].append((n.func.attr, det, n))
+                    out[tl].append((n.func.attr, det, n))
+                # own helper given a tracked list
+                if ci is not None and depth > 0 and self_attr(n.func) and n.func.attr in ci.methods and n.func.attr.startswith("_"):
+                    callee = ci.methods[n.func.attr]
+                    m_, errs = astq.bind_args(callee.node, n, bound=True)
+                    sub_alias = {p_: _target_list(a_, lists, alias) for p_, a_ in m_.items() if isinstance(a_, ast.AST) and _target_list(a_, lists, alias)}
+                    has_effect = any(isinstance(c, ast.Call) and isinstance(c.func, ast.Attribute) and c.func.attr in ("append", "pop", "remove", "insert", "clear", "extend", "sort", "reverse")
+                                     and (_target_list(c.func.value, lists, sub_alias) is not None) for c in ast.walk(callee.node))
+                    if has_effect and not errs:
+                        argmap = {p_: astq.src(a_) for p_, a_ in m_.items() if isinstance(a_, ast.AST)}
+                        for blk in blocks(callee.node):
+                            sub = mutations(blk, lists, callee, sub_alias, ci, depth - 1)
+                            for l_, items in sub.items():
+                                for kind, det, node_ in items:
+                                    # express the helper's arguments in the caller's terms
+                                    for p_, a_src in argmap.items():
+                                        det = det.replace("(" + p_ + ")", "(" + a_src + ")").replace("(" + p_ + ",", "(" + a_src + ",")
+                                    out[l_].append((kind, det, n))
             if isinstance(n, ast.Assign):
                 for t in n.targets:
-                    if self_attr(t) and t.attr in lists:
-                        other = sorted({x.id for x in ast.walk(n.value) if isinstance(x, ast.Name)} - {"self", "np", "list", "i", "j", "k"})
-                        loopv = sorted({x.id for x in ast.walk(n.value) if isinstance(x, ast.Name)} & {"i", "j", "k"})
-                        out[t.attr].append(("assign", "assign via " + ",".join(other), n))
-                    if isinstance(t, ast.Subscript) and self_attr(t.value) and t.value.attr in lists:
-                        out[t.value.attr].append(("setitem", "setitem", n))
+                    tl = t.attr if (self_attr(t) and t.attr in lists) else None
+                    if tl is not None:
+                        perms = _perm_names(fi, n, n.value) if fi is not None else []
+                        if perms:
+                            out[tl].append(("assign", f"re-ordered by {len(perms)} arg-sort permutation(s) #" + str(abs(hash(tuple(perms))) % 10000), n))
+                        else:
+                            other = sorted({x.id for x in ast.walk(n.value) if isinstance(x, ast.Name)} - {"self", "np", "list", "i", "j", "k"})
+                            out[tl].append(("assign", "assign via " + ",".join(other), n))
+                    if isinstance(t, ast.Subscript) and _target_list(t.value, lists, alias):
+                        out[_target_list(t.value, lists, alias)].append(("setitem", "setitem", n))
             if isinstance(n, ast.Delete):
                 for t in n.targets:
-                    if isinstance(t, ast.Subscript) and self_attr(t.value) and t.value.attr in lists:
-                        out[t.value.attr].append(("del", f"del [{astq.src(t.slice)}]", n))
+                    if isinstance(t, ast.Subscript) and _target_list(t.value, lists, alias):
+                        out[_target_list(t.value, lists, alias)].append(("del", f"del [{astq.src(t.slice)}]", n))
     return out
+
+
+def _is_list_expr(ci, v, depth=1):
+    if isinstance(v, (ast.List, ast.ListComp)):
+        return True
+    if isinstance(v, ast.Call) and isinstance(v.func, ast.Name) and v.func.id in ("list", "sorted"):
+        return True
+    if isinstance(v, ast.Call) and self_attr(v.func) and v.func.attr in ci.methods and depth > 0:
+        rets = [r.value for r in ast.walk(ci.methods[v.func.attr].node) if isinstance(r, ast.Return) and r.value is not None]
+        return bool(rets) and all(_is_list_expr(ci, r, depth - 1) for r in rets)
+    return False
 
 
 def blocks(node):
@@ -96,8 +154,15 @@ def check(prog, run):
             if m.node.name not in live:
                 continue
             pf = astq.PrunedFn(m, {"self.plot": mode, "plot": mode})
+            # a private helper that mutates a list it receives as a parameter is judged at its call sites (with the argument substituted)
+            params = set(astq.params_of(m.node)[0]) - {"self"}
+            by_param = m.node.name.startswith("_") and any(isinstance(c, ast.Call) and isinstance(c.func, ast.Attribute) and isinstance(c.func.value, ast.Name)
+                                                           and c.func.value.id in params and c.func.attr in ("append", "pop", "remove", "insert", "clear", "extend", "sort", "reverse")
+                                                           for c in ast.walk(m.node))
+            if by_param:
+                continue
             for body in blocks(pf.node):
-                mu = mutations(body, lists)
+                mu = mutations(body, lists, pf, None, ci)
                 a, b = mu[MAIN], mu[partner]
                 if not a and not b:
                     continue
@@ -116,7 +181,7 @@ def check(prog, run):
                 for t in n.targets:
                     if self_attr(t):
                         v = n.value
-                        kind = "list" if isinstance(v, (ast.List, ast.ListComp)) or (isinstance(v, ast.Call) and isinstance(v.func, ast.Name) and v.func.id == "list") else "other"
+                        kind = "list" if _is_list_expr(ci, v) else "other"
                         assigned.setdefault(t.attr, set()).add(kind)
     listattrs = {a for a, k in assigned.items() if k == {"list"}}
     nsites = 0
@@ -128,7 +193,8 @@ def check(prog, run):
                         other = n.right if side is n.left else n.left
                         if isinstance(n.op, ast.Add) and isinstance(other, (ast.List, ast.ListComp)):
                             continue
-                        if isinstance(other, ast.Call) and astq.callee_name(prog, m, other) in ARRAY_MAKERS:
+                        ox = astq.expr_at(m, n, other) if isinstance(other, ast.Name) else other
+                        if isinstance(ox, ast.Call) and astq.callee_name(prog, m, ox) in ARRAY_MAKERS:
                             continue  # ndarray (op) list broadcasts
                         nsites += 1
                         run.ob("R-types", m.qual, f"arithmetic on list attribute self.{side.attr}", False,
@@ -205,16 +271,44 @@ def pick(prog, run, ci, f):
         h = ci.methods.get(hname)
         if h is None:
             raise AnalysisError(f"anchor lost: SelFromPlot.{hname}")
-        pops = [n for n in ast.walk(h.node) if isinstance(n, ast.Call) and isinstance(n.func, ast.Attribute) and n.func.attr == "pop" and n.args and self_attr(n.func.value, MAIN)]
+        # pops of the frequency list with an index: directly, or inside an own private helper (index expressed in the handler's terms)
+        pops = []
+        for n in ast.walk(h.node):
+            if isinstance(n, ast.Call) and isinstance(n.func, ast.Attribute) and n.func.attr == "pop" and n.args and self_attr(n.func.value, MAIN):
+                pops.append((n, astq.expr_at(h, n, n.args[0])))
+            if isinstance(n, ast.Call) and self_attr(n.func) and n.func.attr in ci.methods and n.func.attr.startswith("_"):
+                callee = ci.methods[n.func.attr]
+                m_, errs = astq.bind_args(callee.node, n, bound=True)
+                for c in ast.walk(callee.node):
+                    if isinstance(c, ast.Call) and isinstance(c.func, ast.Attribute) and c.func.attr == "pop" and c.args and self_attr(c.func.value, MAIN):
+                        a0 = astq.expr_at(callee, c, c.args[0])
+                        if isinstance(a0, ast.Name) and a0.id in m_ and isinstance(m_[a0.id], ast.AST):
+                            pops.append((n, astq.expr_at(h, n, m_[a0.id])))
+                        else:
+                            pops.append((n, a0))
+        # pop(-1) is the deselect-LAST gesture, judged by R-lockstep
+        def _is_last(e):
+            try:
+                return ast.literal_eval(e) == -1
+            except Exception:
+                return False
+        pops = [(n, iv) for n, iv in pops if not _is_last(iv)]
         if not pops:
-            run.ob("R-pick", h.qual, "deselect-nearest", False, "no pop(i) on the frequency list", witness="missing", file=f, node=h.node)
+            has_any = any(isinstance(n, ast.Call) and isinstance(n.func, ast.Attribute) and n.func.attr in ("pop", "remove") or isinstance(n, ast.Delete) for n in ast.walk(h.node))
+            run.ob("R-pick", h.qual, "deselect-nearest", None if not has_any else False, "no pop(i) on the frequency list", witness="missing", file=f, node=h.node)
             continue
-        for pnode in pops:
-            iv = astq.expr_at(h, pnode, pnode.args[0])
-            arr = astq.argreduce(prog, h, iv, astq.ARGMIN)
+        for pnode, iv in pops:
+            inner = iv
+            while isinstance(inner, ast.Call) and isinstance(inner.func, ast.Name) and inner.func.id == "int" and len(inner.args) == 1:
+                inner = inner.args[0]
+            arr = astq.argreduce(prog, h, inner, astq.ARGMIN)
             d = astq.strip_abs(prog, h, arr) if arr is not None else None
-            ok = isinstance(d, ast.BinOp) and isinstance(d.op, ast.Sub) and "self.sel_freq" in astq.src(d.left) and "xdata" in astq.src(d.right)
-            run.ob("R-pick", h.qual, "deselect-nearest removes the entry nearest in frequency to the click", bool(ok), f"index `{astq.src(iv, 80)}`", witness=astq.src(iv, 80), file=f, node=pnode)
+            ok = None
+            if isinstance(d, ast.BinOp) and isinstance(d.op, ast.Sub):
+                ok = "self.sel_freq" in astq.src(d.left) and "xdata" in astq.src(d.right)
+            elif arr is not None or astq.argreduce(prog, h, inner, astq.ARGMAX) is not None:
+                ok = False
+            run.ob("R-pick", h.qual, "deselect-nearest removes the entry nearest in frequency to the click", ok, f"index `{astq.src(iv, 80)}`", witness=astq.src(iv, 80), file=f, node=pnode)
 
 
 def handover(prog, run, ci, f):
